@@ -343,6 +343,27 @@ fn col_clear_detached_then_reuse() {
     check_clear_then_reuse(true);
 }
 
+/// the component-less table (entities that currently hold no component) is a table like any
+/// other: rows, swap-remove with location fix-up, clear
+#[kani::proof]
+#[kani::unwind(6)]
+fn col_componentless_table_remove_and_clear() {
+    let mut alloc = entity::Allocator::<R>::new();
+    let mut a = arch(0b000);
+    let i0 = unsafe { a.push(entity!(), &mut alloc) };
+    let i1 = unsafe { a.push(entity!(), &mut alloc) };
+    let i2 = unsafe { a.push(entity!(), &mut alloc) };
+    assert!(a.len() == 3, "C01: entities without components are stored rows");
+    unsafe { a.remove_row_unchecked(0, &mut alloc) };
+    unsafe { alloc.free_unchecked(i0) };
+    assert!(a.len() == 2);
+    assert!(alloc.get(i2).map(|l| l.index) == Some(0), "C02: the moved (last) entity's location is fixed up");
+    assert!(alloc.get(i1).map(|l| l.index) == Some(1), "C02: other entities keep their location");
+    unsafe { a.clear(&mut alloc) };
+    assert!(a.len() == 0, "C01: clear empties the component-less table too");
+    assert!(!alloc.is_active(i1) && !alloc.is_active(i2), "C02: cleared identifiers are dead");
+}
+
 // ------------------------------------------------------------------ extend (batch)
 fn batch_t(n: usize) -> entities::Batch<(Vec<T>, entities::Null)> {
     let mut v = Vec::new();
